@@ -74,6 +74,9 @@ func (b *Builder) Str(t types.Type) string {
 		return "[" + strconv.Itoa(int(t.Len())) + "]" + b.realStr(t.Elem())
 	case *types.Chan:
 		_, s := ChanDir(t.Dir())
+		if ec, ok := types.Unalias(t.Elem()).(*types.Chan); ok && t.Dir() == types.SendRecv && ec.Dir() == types.RecvOnly {
+			return s + " (" + b.realStr(t.Elem()) + ")"
+		}
 		return s + " " + b.realStr(t.Elem())
 	case *types.Named:
 		name := b.namedStr(t)
